@@ -29,13 +29,6 @@ import c03_lib as L
 
 PROP = 'C03'
 
-S_C03C = ('MINC1 proxy[all-integer index] returns the byte-swapped raw element (then scaled) for multi-byte integer '
-          'data on a little-endian host: Minc1File.get_scaled_data views the native NumPy scalar with the file\'s '
-          'big-endian dtype; silent wrong value; np.asarray(proxy) and every array-valued index are right')
-S_C03B = ('np.asarray(proxy) of a zero-size image has shape (0,) instead of the image shape when the data are not '
-          'memory-mapped (mmap=False or compressed file): array_from_file returns np.array([]) on its read path; '
-          'proxy[ix] of the same proxy has the right shape')
-
 
 # ------------------------------------------------------------------ index tuples
 def o2s(v):
@@ -179,7 +172,8 @@ class Target:
         return int(cfg[0] is not False and cfg[2] == 'plain')
 
 
-C = {'have_igzip': False}
+import random as _random
+C = {'have_igzip': False, 'seek_rng': _random.Random(12345)}
 
 
 def model_line(t, ix, cfg):
@@ -197,7 +191,7 @@ def model_line(t, ix, cfg):
         nfr = s['shape'][3]
         return f"ecat {mm} {lst(s['shape'][:3])} {nfr} {s['w']} {lst(range(nfr))} 3 {ixs}"
     if k == 'minc':
-        return f"minc {lst(s['shape'])} {s['nscales']} {int(bool(s.get('swap0d')))} {ixs}"
+        return f"minc {lst(s['shape'])} {s['nscales']} {ixs}"
     raise ValueError(k)
 
 
@@ -206,16 +200,12 @@ def model_values(t, res):
     harness's own decode of the file; ('err', enum)"""
     if not res.startswith('ok '):
         return ('err', res[4:] if res.startswith('err ') else res)
-    toks = res.split(' ')
-    _, sh, el, fl = toks[:4]
-    swapped = len(toks) > 4 and toks[4] == 'swapped'
+    _, sh, el, fl = res.split(' ')[:4]
     shape = tuple(int(x) for x in sh[1:-1].split(',') if x)
     e = np.array([int(x) for x in el[1:-1].split(',') if x], dtype=np.int64)
     f = np.array([int(x) for x in fl[1:-1].split(',') if x], dtype=np.int64)
     s = t.spec
     raw = np.asarray(s['raw'])
-    if swapped:       # the model says this element arrives with its bytes reversed (S-C03c)
-        raw = raw.byteswap()
     if s['kind'] == 'minc':
         raw = np.clip(raw, *L.MINC_VR)      # _normalize clips to valid_range (part of MINC's `scale`)
     if s['kind'] == 'ecat':
@@ -255,9 +245,6 @@ def check_full(chk, t, cfg, p, full):
     zero = int(np.prod(s['shape'])) == 0
     ok = full.shape == tuple(s['shape']) and np.array_equal(full, exp) and tuple(p.shape) == tuple(s['shape'])
     if not ok:
-        if zero and not t.mm(cfg) and full.shape == (0,):
-            chk.known('S-C03b', S_C03B)
-            return
         C['full_viol'] = C.get('full_viol', 0) + 1
         if C['full_viol'] > 3:
             chk.violations.append(('property_violation', chk.violations[-1][1] if chk.violations else '', True))
@@ -283,7 +270,7 @@ class Runner:
         p, full, fobjs = t.proxy(cfg, chk)
         openers.HAVE_INDEXED_GZIP = bool(cfg[3]) and C['have_igzip']
         for f, size in fobjs:
-            f.seek(chk.rng.randrange(0, max(1, size)))
+            f.seek(C['seek_rng'].randrange(0, max(1, size)))
         try:
             want = full[ix]
             np_err = None
@@ -325,16 +312,6 @@ class Runner:
                 pred = 'values of proxy[ix] differ from np.asarray(proxy)[ix]'
         else:
             chk.refusal(err_enum(g_err))
-        if pred and int(np.prod(t.spec['shape'])) == 0 and not t.mm(cfg) and full.shape == (0,):
-            zero_known = True
-            chk.known('S-C03b', S_C03B)
-        if (pred and t.spec['kind'] == 'minc' and t.spec.get('swap0d') and t.spec['w'] > 1 and np_err is None
-                and g_err is None and want.shape == () and got.shape == ()
-                and native(got).dtype == native(want).dtype):
-            # structural signature: MINC1 (netCDF), multi-byte integer dtype, 0-d result, little-endian host
-            zero_known = True
-            chk.known('S-C03c', S_C03C)
-            chk.tagc('known:S-C03c')
         if pred and not zero_known:
             self.nviol += 1
             if self.nviol <= 5:
@@ -451,9 +428,9 @@ def run(chk: Check):
                 '[-3,3]\\{0}|None and every int, n<=4; rank 2: every pair of per-axis representatives (one slice per '
                 'distinct selection, every int, two out-of-range ints), axes<=4, orders F and C, + None/Ellipsis '
                 'variants: exhaustive, seed independent); NIfTI-1 single/pair, NIfTI-2, Analyze, SPM99, SPM2, MGH/MGZ '
-                '(rank 3-5), AFNI HEAD/BRIK (>=2 sub-bricks, BRICK_FLOAT_FACS with zeros), PAR/REC (sorted, '
+                '(rank 3-5), direct ArrayProxy rank 3-5 in F and C order, AFNI HEAD/BRIK (>=2 sub-bricks, BRICK_FLOAT_FACS with zeros), PAR/REC (sorted, '
                 'slice-major and interleaved record order, dv and fp scaling, 3-D and 4-D), multi-frame ECAT (4 '
-                'frames, per-frame factors), MINC1 (netcdf) and MINC2 (h5py) with 0/1/2 scaling dimensions, CIFTI-2 '
+                'frames, per-frame factors; frame axis exhaustive: every slice and int under three in-frame slicers), MINC1 (netcdf) and MINC2 (h5py) with 0/1/2 scaling dimensions, CIFTI-2 '
                 'reshaped proxy and ArrayProxy.reshape, zero-size images: random index tuples incl. Ellipsis/None/'
                 'bad ints/too many indices; configurations cycled over mmap{True,False,c,r} x keep_file_open x '
                 '{plain,gz,bz2,zst} x indexed_gzip{on,off} x {path, open file object re-positioned at random before '
@@ -528,9 +505,10 @@ def _run(chk, R, W, rng, nib, EcatImage):
         for ix in [(), (Ellipsis,), (None,), (Ellipsis, None), (None, Ellipsis), (slice(None), None), (0, None), (None, -1)]:
             R.case(t, t.cfgs[ci % len(t.cfgs)], ix, 'G1:rank1-exhaustive')
             ci += 1
-    reps = {n: reps_for(n) for n in range(1, 5)}
-    for a in range(1, 5):
-        for b in range(1, 5):
+    maxn = chk.n(4, 5)
+    reps = {n: reps_for(n) for n in range(1, maxn + 1)}
+    for a in range(1, maxn + 1):
+        for b in range(1, maxn + 1):
             for order in 'FC':
                 t = direct_target((a, b), order, k)
                 k += 1
@@ -544,6 +522,32 @@ def _run(chk, R, W, rng, nib, EcatImage):
                         R.case(t, t.cfgs[ci % len(t.cfgs)], ix, 'G1:rank2-exhaustive')
                         ci += 1
     chk.extra['exhaustive_core_cases'] = ci
+    # ---------------- G1b: direct ArrayProxy, rank 3-5, both orders, random index tuples
+    for rep in range(chk.n(6, 40)):
+        nd = rng.choice([3, 4, 5])
+        shape = tuple(rng.choice([1, 2, 2, 3, 3, 4]) for _ in range(nd))
+        t = direct_target(shape, 'FC'[rep % 2], k)
+        k += 1
+        targets.append(t)
+        for j in range(chk.n(150, 1500)):
+            R.case(t, t.cfgs[ci % len(t.cfgs)], rand_index(rng, shape), 'G1b:direct-rank3-5-random', sample=(j == 7 and rep == 1))
+            ci += 1
+    # ---------------- spec validation of `bcast` (np.broadcast_arrays of per-slab factors = factor o // m in F order)
+    nb = 0
+    for shape, kk in [((2, 3, 4), 2), ((2, 3, 2, 2), 2), ((3, 1, 2, 4), 3), ((1, 1, 3), 2), ((2, 2, 2, 3), 3)]:
+        trail = shape[kk:]
+        fac = np.arange(int(np.prod(trail)), dtype=np.float64) + 10
+        from nibabel.fileslice import strided_scalar
+        _, b = np.broadcast_arrays(strided_scalar(shape), fac.reshape((1,) * kk + trail, order='F'))
+        m = int(np.prod(shape[:kk]))
+        want = fac[np.arange(int(np.prod(shape))) // m]
+        chk.count(key=('bcast', shape, kk), tag='spec:bcast')
+        if not np.array_equal(b.ravel(order='F'), want):
+            nb += 1
+            chk.disagreements += 1
+            chk.violation('correspondence', case={'bcast': [list(shape), kk]}, predicate='SPECIFICATION MISMATCH: bcast (factor o div m) '
+                          'is not what np.broadcast_arrays gives', found_input=False, theorem='spec validation: C03 bcast')
+    chk.extra['bcast_spec_mismatches'] = nb
 
     # ---------------- G2: formats behind the generic ArrayProxy, rank 3-5, random indices
     def shape_for(nd):
@@ -576,6 +580,8 @@ def _run(chk, R, W, rng, nib, EcatImage):
             gen_targets.append(t)
     for rep in range(chk.n(2, 4)):
         shape = shape_for(rng.choice([3, 4]))
+        if len(shape) == 4 and shape[3] == 1:        # MGH stores (a,b,c,1) as 3-D: the writer refuses (C01's subject)
+            shape = shape[:3] + (2,)
         dt = rng.choice(['i2', 'u1', 'i4', 'f4'])
         gz = rep % 2 == 1
         load, img_file, spec = L.write_mgh(os.path.join(W, f'mgh_{rep}'), shape, dt, salt=rep, gz=gz)
@@ -669,8 +675,6 @@ def _run(chk, R, W, rng, nib, EcatImage):
             pth = os.path.join(W, f'minc{ver}_{mi}.mnc')
             _, _, spec = (L.write_minc1 if ver == 1 else L.write_minc2)(pth, shape, ns, salt=mi)
             klass = Minc1Image if ver == 1 else Minc2Image
-            import sys
-            spec['swap0d'] = (ver == 1 and sys.byteorder == 'little')
             paths = {'plain': pth}
             comps = ('plain',)
             if ver == 1:
@@ -683,7 +687,7 @@ def _run(chk, R, W, rng, nib, EcatImage):
             mi += 1
 
     # ---------------- random index tuples over G2-G6
-    nrand = chk.n(220, 1500)
+    nrand = chk.n(220, 5000)
     gi = 0
     for t in gen_targets:
         targets.append(t)
@@ -712,7 +716,7 @@ def _run(chk, R, W, rng, nib, EcatImage):
     # ---------------- G7: CIFTI-2 reshaped proxy and ArrayProxy.reshape
     run_reshape(chk, R, W, rng, nib, targets)
 
-    # ---------------- G8: zero-size images (finding S-C03b)
+    # ---------------- G8: zero-size images (regression of S-C03b: shape kept without memmap)
     for rep, shape in enumerate([(0, 3, 2), (2, 0, 3), (2, 3, 0)]):
         base = os.path.join(W, f'zero_{rep}')
         load, img_file, spec = L.write_analyze_like(nib.Nifti1Image, base, shape, 'i2', 2.0, 3.0, salt=rep)
@@ -774,12 +778,16 @@ def _run(chk, R, W, rng, nib, EcatImage):
 
 
 UNPROVED = [
-    'C03_getitem_eq_index for PARRECArrayProxy (parrec_getitem = np_index of the slab-reordered, per-slab-scaled array): '
-    'modelled and checked by correspondence only; the whole-array / unsorted paths follow from the proved lemmas, the '
-    'sorted path needs "consecutive slabs = prefix of the REC array" (not done)',
-    'C03_getitem_eq_index for MINC (_normalize slices image-min/-max by the leading index entries and broadcasts over the '
-    'trailing ones): modelled and checked by correspondence only; needs offs_app applied to the reversed (C-order) index',
-    'element arithmetic (float32/float64 promotion, rounding of raw*slope+inter, MINC clip) is abstract (`scale`): C02',
+    'mmap-independence of np.asarray(proxy) for a RANK-0 proxy (shape ()): REFUTED (C03_mmap_rank0_refuted; array_from_file '
+    'keeps its len(shape)==0 early return); no image format yields rank 0, proved for rank >= 1 incl. zero-length axes as '
+    'C03_mmap_independent_partial',
+    'element arithmetic (float32/float64 promotion, rounding of raw*slope+inter, MINC clip, apply_read_scaling\'s (1,0) '
+    'shortcut) is abstract (`scale`): C02; the harness compares values with exact dyadic factors only',
+    'that the openers (gzip/bz2/zstd/indexed_gzip, keep_file_open policies, mmap) satisfy the reader contract reader_ok is an '
+    'oracle premise, exercised by the configuration grid, not proved; locking is C14',
+    'MINC: netCDF / h5py decoding and h5py\'s own slicing (with the fall-back to slicing the whole array) are the np_index '
+    'oracle; ECAT: the theorem covers any frame-order table, the correspondence only files with frames stored in order; '
+    'PARRECArrayProxy with scaling=None does not occur (get_data_scaling always returns factors) and is not modelled',
 ]
 
 
@@ -788,58 +796,112 @@ def run_reshape(chk, R, W, rng, nib, targets):
     from nibabel.cifti2 import Cifti2Header, Cifti2Image, cifti2_axes as ax
     from nibabel.arrayproxy import ArrayProxy
     lines, exp = [], {}
-    # CIFTI-2 image saved through nibabel, loaded back: dataobj is a reshaped proxy
-    for rep, (nr, nc) in enumerate([(3, 4), (2, 5)]):
+    # CIFTI-2 images saved through nibabel, loaded back: dataobj is a RESHAPED proxy.  Storage: float32 without
+    # scaling; int16 1000.. stored as uint8 by the writer (slope 1, inter 1000); uint8 with the NIfTI-2 scl_slope /
+    # scl_inter fields patched to (slope != 1, inter 0) and (slope != 1, inter != 0)
+    cif = [((3, 4), 'f4', None, None), ((3, 4), 'i2', np.uint8, None), ((2, 5), 'u1', None, (2.0, 0.0)),
+           ((4, 3), 'u1', None, (0.5, -7.5)), ((2, 3), 'u1', None, (1.0, 8.0))]
+    for rep, ((nr, nc), ddt, store, patch) in enumerate(cif):
         hdr = Cifti2Header.from_axes((ax.SeriesAxis(0, 1, nr), ax.ScalarAxis(['s%d' % i for i in range(nc)])))
-        data = (L.raw_values(nr * nc, 'f4', salt=rep).reshape(nr, nc)).astype(np.float32)
+        if ddt == 'i2':
+            data = (1000 + (np.arange(nr * nc) * 7) % 256).astype(np.int16).reshape(nr, nc)
+        else:
+            data = L.raw_values(nr * nc, ddt, salt=rep).reshape(nr, nc).astype(ddt)
         pth = os.path.join(W, f'cifti_{rep}.nii')
         with warnings.catch_warnings():
             warnings.simplefilter('ignore')
-            Cifti2Image(data, hdr).to_filename(pth)
+            im = Cifti2Image(data, hdr)
+            if store is not None:
+                im.set_data_dtype(store)
+            im.to_filename(pth)
+        if patch is not None:
+            with open(pth, 'r+b') as f:
+                f.seek(176)
+                f.write(np.array(patch, '<f8').tobytes())
         plain = open(pth, 'rb').read()
+        import io
+        h2 = nib.Nifti2Header.from_fileobj(io.BytesIO(plain))
         off = int(np.frombuffer(plain[168:176], '<i8')[0])           # NIfTI-2 vox_offset
-        raw = np.frombuffer(plain, '<f4', count=nr * nc, offset=off)
-        spec = dict(kind='ap', shape=(nr, nc), raw=raw, order='F', fac_of_elem=np.zeros(nr * nc, int), slopes=None, inters=None,
-                    w=4, off=off, dtype=np.dtype('<f4'), one_file=True, hdr_file=pth, img_file=pth)
+        fdt = h2.get_data_dtype()
+        sl, it = h2.get_slope_inter()
+        raw = np.frombuffer(plain, fdt, count=nr * nc, offset=off)
+        spec = dict(kind='ap', shape=(nr, nc), raw=raw, order='F', fac_of_elem=np.zeros(nr * nc, int),
+                    slopes=None if sl is None else [float(sl)], inters=None if sl is None else [float(it or 0.0)],
+                    w=fdt.itemsize, off=off, dtype=fdt, one_file=True, hdr_file=pth, img_file=pth)
         t = Target(f'cifti_{rep}', spec, {'plain': pth}, build_loader(Cifti2Image), comps=('plain',), mmaps=MMAPS, kfos=(True, False),
                    srcs=('path',), igz=(True,))
         t.plain_size = len(plain)
-        t.gen = {'g': 'cifti', 'shape': [nr, nc]}
+        t.gen = {'g': 'cifti', 'shape': [nr, nc], 'scl': [None if sl is None else float(sl), None if sl is None else float(it or 0.0)]}
         targets.append(t)
+        chk.tagc(f'G7:cifti-scl:slope{"=1" if sl is None or float(sl) == 1.0 else "!=1"},inter{"=0" if sl is None or not it else "!=0"}')
         gi = 0
         for ix in [(), (Ellipsis,), (slice(None, None, -1),), (1,), (slice(None), slice(1, None, 2)), (None, -1, slice(None, None, -2))] + \
                   [rand_index(rng, (nr, nc)) for _ in range(chk.n(40, 200))]:
             R.case(t, t.cfgs[gi % len(t.cfgs)], ix, 'G7:cifti2-reshaped')
             gi += 1
-        # the independent statement about the CIFTI file: the matrix in the NIfTI data block, F order over (1,1,1,1,nr,nc)
-        if not np.array_equal(raw.reshape((nr, nc), order='F'), data):
-            chk.violation('property_violation', case={'target': t.name, 'what': 'cifti layout'}, predicate='CIFTI-2 data block is not the F-order matrix')
-    # ArrayProxy.reshape on a direct proxy: every factorisation incl. one -1
+        # independent statements about the CIFTI file: the matrix is the F-order data block over (1,1,1,1,nr,nc), scaled by
+        # the header's factors; what was saved comes back (exact here: integer / dyadic values)
+        exp_m = L.expected_flat(spec).reshape((nr, nc), order='F')
+        if patch is None and not np.array_equal(exp_m, data):
+            chk.violation('property_violation', case={'target': t.name, 'gen': t.gen, 'what': 'cifti layout'},
+                          predicate='CIFTI-2 data block (F order, scaled by the header factors) is not the saved matrix')
+        # the reshaped proxy carries the un-reshaped NIfTI proxy's factors
+        with warnings.catch_warnings():
+            warnings.simplefilter('ignore')
+            n2 = nib.Nifti2Image.from_filename(pth)
+            c2 = Cifti2Image.from_filename(pth)
+        f0 = np.asarray(n2.dataobj)
+        f1 = np.asarray(c2.dataobj)
+        chk.count(key=('cifti-vs-nifti', rep), tag='G7:cifti-vs-unreshaped')
+        if (not np.array_equal(f1, f0.reshape((nr, nc), order='F')) or not np.array_equal(f1, exp_m)
+                or (c2.dataobj.slope, c2.dataobj.inter) != (n2.dataobj.slope, n2.dataobj.inter)):
+            chk.violation('property_violation', case={'target': t.name, 'gen': t.gen, 'cfg': [str(c) for c in t.cfgs[0]], 'ix': '()',
+                                                      'what': 'asarray'},
+                          impl_output={'reshaped': f1.ravel(order='F')[:6].tolist(), 'unreshaped': f0.ravel(order='F')[:6].tolist(),
+                                       'factors': [str(c2.dataobj.slope), str(c2.dataobj.inter), str(n2.dataobj.slope), str(n2.dataobj.inter)]},
+                          predicate='CIFTI-2 (reshaped) proxy differs from the un-reshaped NIfTI-2 proxy of the same file / from raw*slope+inter')
+    # ArrayProxy.reshape on a direct proxy and on proxies of NIfTI-1 files: every factorisation incl. one -1, under
+    # (slope, inter) in {(!=1, !=0), (1, !=0), (!=1, 0), (1, 0)}
     base, rawfile = reshape_file(W)
     shapes0 = [(2, 3, 4), (24,), (4, 6), (1, 1, 1, 1, 6, 4)]
     news = [(24,), (6, 4), (4, 6), (2, 12), (-1, 4), (3, -1), (2, -1, 2), (-1,), (2, 3, 4), (5, 5), (-1, -1), (-1, 5), (0, -1), (24, 1, -1)]
     ri = 0
     nv = 0
-    for s0 in shapes0:
+
+    def report(res, fails, nix, case):
+        nonlocal nv
+        chk.tagc('G7:reshape-index', nix)
+        chk.evaluations += nix
+        for why, ixs_ in fails:
+            nv += 1
+            if nv <= 2:
+                chk.violation('property_violation', case=dict(case, ix=ixs_), predicate=why)
+            else:
+                chk.violations.append(('property_violation', chk.violations[-1][1], True))
+
+    for si, s0 in enumerate(shapes0):
         for order in 'FC':
             for mm in (True, False):
-                for ns in news:
-                    cid = f'r{ri}'
-                    ri += 1
-                    lines.append(f'{cid} reshape {lst(s0)} {lst(ns)}')
-                    chk.count(key=('reshape', s0, ns, order, mm), tag='G7:reshape')
-                    ixs = lambda shape: [rand_index(rng, shape, bad=0.0) for _ in range(3)]
-                    res, fails, nix = reshape_eval(base, rawfile, s0, ns, order, mm, ixs)
-                    exp[cid] = res
-                    chk.tagc('G7:reshape-index', nix)
-                    chk.evaluations += nix
-                    for why, ixs_ in fails:
-                        nv += 1
-                        if nv <= 2:
-                            chk.violation('property_violation', case={'reshape': [list(s0), list(ns)], 'order': order, 'mmap': mm, 'ix': ixs_},
-                                          predicate=why)
-                        else:
-                            chk.violations.append(('property_violation', chk.violations[-1][1], True))
+                for sci, scl_ in enumerate(RESHAPE_SCL):
+                    for ni, ns in enumerate(news):
+                        if sci and (ni + si) % 3:          # all factorisations under the first pair, a third under the others
+                            continue
+                        cid = f'r{ri}'
+                        ri += 1
+                        lines.append(f'{cid} reshape {lst(s0)} {lst(ns)}')
+                        chk.count(key=('reshape', s0, ns, order, mm, scl_), tag='G7:reshape')
+                        chk.tagc(f'G7:reshape-scl:{scl_}')
+                        ixs = lambda shape: [rand_index(rng, shape, bad=0.0) for _ in range(3)]
+                        res, fails, nix = reshape_eval(base, rawfile, s0, ns, order, mm, ixs, scl_)
+                        exp[cid] = res
+                        report(res, fails, nix, {'reshape': [list(s0), list(ns)], 'order': order, 'mmap': mm, 'scl': list(scl_), 'via': 'direct'})
+    for sci, scl_ in enumerate(RESHAPE_SCL):
+        for mm in (True, False):
+            for ns in news:
+                chk.count(key=('reshape-nifti', ns, mm, scl_), tag='G7:reshape-nifti')
+                ixs = lambda shape: [rand_index(rng, shape, bad=0.0) for _ in range(2)]
+                res, fails, nix = reshape_eval_nifti(W, ns, mm, ixs, scl_)
+                report(res, fails, nix, {'reshape': [[2, 3, 4], list(ns)], 'order': 'F', 'mmap': mm, 'scl': list(scl_), 'via': 'nifti'})
     mod = run_model_parallel(PROP, lines)
     bad = 0
     for cid, e in exp.items():
@@ -860,11 +922,33 @@ def reshape_file(W):
     return base, rawfile
 
 
-def reshape_eval(base, rawfile, s0, ns, order, mm, ixs):
-    """ArrayProxy(shape s0).reshape(ns): (model-comparable result, [(failed predicate, ix)], #index cases)"""
+RESHAPE_SCL = [(0.5, 4.0), (1.0, 1000.0), (2.0, 0.0), (1.0, 0.0)]
+
+
+def reshape_eval(base, rawfile, s0, ns, order, mm, ixs, scl=(0.5, 4.0)):
+    """ArrayProxy(shape s0, slope, inter).reshape(ns): (model-comparable result, [(failed predicate, ix)], #index cases)"""
     from nibabel.arrayproxy import ArrayProxy
-    n_elem = 24
-    p0 = ArrayProxy(base, (tuple(s0), np.dtype('<i2'), 6, 0.5, 4.0), mmap=mm, order=order)
+    p0 = ArrayProxy(base, (tuple(s0), np.dtype('<i2'), 6, scl[0], scl[1]), mmap=mm, order=order)
+    want = rawfile[:24].astype(np.float64) * scl[0] + scl[1]
+    return reshape_eval_proxy(p0, want, ns, ixs, order)
+
+
+def reshape_eval_nifti(W, ns, mm, ixs, scl):
+    """img.dataobj.reshape(ns) for a NIfTI-1 file written with scl_slope / scl_inter = scl"""
+    import nibabel as nib
+    base = os.path.join(W, 'reshape_nii_%s_%s' % scl)
+    if not os.path.exists(base + '.nii'):
+        L.write_analyze_like(nib.Nifti1Image, base, (2, 3, 4), 'i2', scl[0], scl[1], salt=5)
+    raw = L.raw_values(24, 'i2', 5)
+    with warnings.catch_warnings():
+        warnings.simplefilter('ignore')
+        img = nib.load(base + '.nii', mmap=mm)
+    want = raw.astype(np.float64) * scl[0] + scl[1]
+    return reshape_eval_proxy(img.dataobj, want, ns, ixs, 'F')
+
+
+def reshape_eval_proxy(p0, want, ns, ixs, order):
+    """reshaped proxy vs (a) raw*slope+inter in F order, (b) the un-reshaped proxy, (c) its own indexing"""
     full0 = np.asarray(p0)
     fails = []
     nix = 0
@@ -876,12 +960,16 @@ def reshape_eval(base, rawfile, s0, ns, order, mm, ixs):
         return 'err value', fails, nix
     full1 = np.asarray(p1)
     # same bytes, same factors: F-order flattening of the reshaped proxy = stored elements, scaled
-    want = rawfile[:n_elem].astype(np.float64) * 0.5 + 4.0
     if not np.array_equal(full1.ravel(order='F'), want) or full1.shape != tuple(p1.shape):
-        fails.append(('reshaped proxy does not present the same stored elements (F order) with the same scaling', '()'))
-    # = the F-order NumPy reshape of the original when the original is F-ordered
+        fails.append(('reshaped proxy does not present the same stored elements (F order) scaled by the same slope/intercept '
+                      '(raw*slope+inter)', '()'))
+    # the reshaped proxy has the un-reshaped proxy's factors and, when that one is F-ordered, equals its F-order reshape
+    if (p1.slope, p1.inter) != (p0.slope, p0.inter):
+        fails.append((f'reshaped proxy has factors ({p1.slope}, {p1.inter}), the proxy it came from ({p0.slope}, {p0.inter})', '()'))
     if order == 'F' and not np.array_equal(full1, np.reshape(full0, p1.shape, order='F')):
         fails.append(('reshape(proxy) != np.reshape(np.asarray(proxy), shape, order="F")', '()'))
+    if native(full1).dtype != native(full0).dtype:
+        fails.append((f'reshaped proxy yields dtype {full1.dtype}, the un-reshaped one {full0.dtype}', '()'))
     for ix in (ixs(tuple(p1.shape)) if callable(ixs) else ixs):
         if isinstance(ix, str):
             ix = s2ix(ix)
@@ -983,6 +1071,14 @@ def vm(chk, R, mod):
 
 def replay(chk, obj):
     """re-create the target from its generator description and re-evaluate the direct predicate"""
+    import shutil
+    try:
+        return _replay(chk, obj)
+    finally:
+        shutil.rmtree(chk.workdir, ignore_errors=True)
+
+
+def _replay(chk, obj):
     ensure_impl_path()
     c = obj.get('case')
     if obj.get('inputs') and isinstance(obj['inputs'], dict) and obj['inputs'].get('probe_fn'):
@@ -991,8 +1087,12 @@ def replay(chk, obj):
         print('defect present' if r else 'defect absent')
         return 1 if r else 0
     if isinstance(c, dict) and 'reshape' in c:
-        base, rawfile = reshape_file(chk.workdir)
-        res, fails, _ = reshape_eval(base, rawfile, c['reshape'][0], c['reshape'][1], c['order'], c['mmap'], [c.get('ix') or '()'])
+        scl = tuple(c.get('scl') or (0.5, 4.0))
+        if c.get('via') == 'nifti':
+            res, fails, _ = reshape_eval_nifti(chk.workdir, c['reshape'][1], c['mmap'], [c.get('ix') or '()'], scl)
+        else:
+            base, rawfile = reshape_file(chk.workdir)
+            res, fails, _ = reshape_eval(base, rawfile, c['reshape'][0], c['reshape'][1], c['order'], c['mmap'], [c.get('ix') or '()'], scl)
         import shutil
         shutil.rmtree(chk.workdir, ignore_errors=True)
         print(res, fails)
